@@ -193,41 +193,6 @@ func c07Kind(k string, pkLen int) (*Node, bool) {
 	panic("bad kind")
 }
 
-// c07CapReader behaves like bytes.Reader but refuses reads of more than 40000 bytes: the generator uses
-// it to discard inputs whose (attacker-chosen) SCALE length prefix makes pkg/scale allocate up to
-// 4 GiB, which neither the harness output nor the Lean model can materialise.
-type c07CapReader struct {
-	s []byte
-	i int
-}
-
-type c07Large struct{}
-
-func (r *c07CapReader) Read(p []byte) (int, error) {
-	if len(p) > 40000 {
-		panic(c07Large{})
-	}
-	if r.i >= len(r.s) {
-		return 0, io.EOF
-	}
-	n := copy(p, r.s[r.i:])
-	r.i += n
-	return n, nil
-}
-
-func c07Safe(b []byte) (safe bool) {
-	safe = true
-	defer func() {
-		if x := recover(); x != nil {
-			if _, ok := x.(c07Large); ok {
-				safe = false
-			}
-		}
-	}()
-	_, _ = Decode(&c07CapReader{s: b})
-	return safe
-}
-
 func c07ModeOK(m string) bool { return m == "a" || m == c07ScaleMode() }
 
 func c07Run(line string) string {
@@ -667,7 +632,7 @@ func c07GenRaw(r *vhRng) string {
 	case 5, 6, 7, 8, 9:
 		for {
 			e := c07GenExpr(r, 3, r.Chance(1, 3), true)
-			if enc := c07EncodeExpr(e); c07Safe(enc) && !c07Big(enc, true, 0) {
+			if enc := c07EncodeExpr(e); !c07Big(enc, true, 0) {
 				return "ne " + m + " " + e
 			}
 		}
@@ -676,7 +641,7 @@ func c07GenRaw(r *vhRng) string {
 	case 11:
 		for {
 			b := r.Bytes(r.Intn(12))
-			if c07Safe(b) && !c07Big(b, true, 0) {
+			if !c07Big(b, true, 0) {
 				return "nd " + m + " " + vhHex(b)
 			}
 		}
@@ -696,7 +661,7 @@ func c07GenRaw(r *vhRng) string {
 			for i := 0; i < k; i++ {
 				mut = c07Mutate(r, mut)
 			}
-			if c07Safe(mut) && !c07Big(mut, true, 0) {
+			if !c07Big(mut, true, 0) {
 				return "nd " + m + " " + vhHex(mut)
 			}
 		}
